@@ -1,7 +1,7 @@
 (* C04 - engine instances are isolated; interleaved queries do not interfere.
    Only statements; every proof is `exact <lemma>` to a lemma proved in Engine/Isolation.v, Engine/Slots.v,
    Engine/SlotsReach.v, Engine/Footprint.v, Engine/CursorFrame.v, Engine/Frame.v (examples: Engine/IsolationExamples.v,
-   Engine/SlotsExamples.v, Engine/NonLifoExamples.v).
+   Engine/SlotsExamples.v, Engine/NonLifoExamples.v, Engine/SharedExamples.v).
 
    Model (Engine/World.v): a world = n engine records (atom table, fact store, eval_context, reserved names,
    the query generators the caller holds) + ONE heap of variable bindings shared by all engines (a Variable
@@ -23,7 +23,7 @@ From Coq Require Import String.
 From Coq Require Import List Arith Bool.
 Import ListNotations.
 From YP Require Import Base.Str Term.Term Unify.Unify Engine.Frame Engine.Db Engine.World Engine.CursorFrame
-  Engine.Isolation Engine.Footprint Engine.Slots Engine.SlotsReach Engine.IsolationExamples Engine.SlotsExamples Engine.NonLifoExamples.
+  Engine.Isolation Engine.Footprint Engine.Slots Engine.SlotsReach Engine.IsolationExamples Engine.SlotsExamples Engine.NonLifoExamples Engine.SharedExamples.
 
 (* the initial world of any number of engines satisfies the invariant, and every step keeps it (see step_local) *)
 Theorem C04_init_world_inv : forall n, winv (init_world n).
@@ -358,3 +358,18 @@ Example C04_nonvacuous_deep :
   /\ pick 1 dops (snd (erun 1 0 80 dops de dh))
      = snd (erun 1 0 80 (filter (is_slot 1) dops) de (fP (PQ_of 1 0 de 1) dh)).
 Proof. exact ex_deep. Qed.
+
+(* round 4: the SAME inputs given to two engines (in the model an argument is a value: the same rows srow2 = [7; 1],
+   srow1 = [42] in two ORegister operations).  Engine 0 registers them with variable arity, engine 1 under arity 1 (what arity=None has to infer for a
+   `*args` function); both query w/2 and w/1.  Engine 0 answers both, engine 1 only w/1 - in the interleaved schedule, back to
+   back in the other order, and alone (instance of C04_interleave_alone_init that is not trivial: the two engines differ) *)
+Example C04_nonvacuous_shared_inputs :
+  proj 0 (snd (wrun 100 (init_world 2) ssched))
+  = [otag "ok" []; otag "started" []; sall [srow2]; otag "started" []; sall [srow1]]
+  /\ proj 1 (snd (wrun 100 (init_world 2) ssched))
+  = [otag "ok" []; otag "started" []; sall []; otag "started" []; sall [srow1]]
+  /\ proj 0 (snd (wrun 100 (init_world 2) ssched')) = proj 0 (snd (wrun 100 (init_world 2) ssched))
+  /\ proj 1 (snd (wrun 100 (init_world 2) ssched')) = proj 1 (snd (wrun 100 (init_world 2) ssched))
+  /\ proj 0 (snd (wrun 100 (init_world 2) ssched)) = snd (erun 2 0 100 (map snd (only 0 ssched)) init_engine [])
+  /\ proj 1 (snd (wrun 100 (init_world 2) ssched)) = snd (erun 2 1 100 (map snd (only 1 ssched)) init_engine []).
+Proof. exact ex_shared_inputs. Qed.
